@@ -36,7 +36,8 @@ P('C05', ['db.conf', 'db.cTok', 'db.rTok', 'db.rLeft', 'db.pw'], ['recover', 're
   foot_acts=['ConfirmGet', 'RecoverStart', 'RecoverEnd', 'RestartConfirm'])
 P('C06', ['db.pw', 'db.rTok', 'rm', 'cookie'], ['remember', 'recover'], ['core', 'full'],
   foot_acts=['RecoverEnd', 'UpdatePassword', 'LoginPost', 'Probe'])
-P('C07', ['rm', 'cookie', 'sess.half', 'sess.uid'], ['remember'], ['core', 'full'])
+P('C07', ['rm', 'cookie', 'sess.half', 'sess.uid', 'sess.oRm', 'sess.oHas'], ['remember', 'oauth'], ['core', 'oauth'],
+  fam_consts={'oauth': {'Pids': '{"u1","o_pa_x","o_pa_y","o_pb_x","o_pb_y"}', 'MaxDepth': 5}})
 P('C09', ['sess.expLeft', 'sess.uid', 'resp.seenUser', 'resp.seenKeys', 'resp.ran', 'sess.*'], ['expire'], ['core', 'full'],
   foot_acts=['Probe', 'LoginPost', 'Tick', 'Logout'])
 P('C10', ['sess.*', 'cookie'], ['login', 'remember', 'expire'], ['core', 'full'], foot_acts=['Logout'])
@@ -51,7 +52,7 @@ PROPS['C17']['assumptions'] = PROPS['C17']['assumptions'] + [
     'histories are fault free (the property\'s quantifier); one third of the random configurations use a store whose Load resolves PIDs case-insensitively']
 
 OPIDS = {'Pids': '{"u1","o_pa_x","o_pa_y","o_pb_x","o_pb_y"}'}
-P('C02', ['sess.uid', 'sess.twofa', 'sess.totpPend', 'sess.smsPend', 'sess.smsCode', 'sess.smsFresh', 'resp.sms'],
+P('C02', ['sess.uid', 'sess.twofa', 'sess.totpPend', 'sess.smsPend', 'sess.smsCode', 'sess.smsFresh', 'resp.sms', 'db.rcLeft'],
   ['twofa', 'smsswitch'], ['twofa', 'full'], fam_consts={'twofa': {'MaxDepth': 5}},
   tconsts={'MaxDepth': 6})
 P('C12', ['db.otps', 'db.rcLeft', 'db.rcg', 'db.totpLast', 'sess.smsCode', 'sess.uid'], ['otp', 'twofa'], ['twofa', 'full'],
